@@ -284,6 +284,11 @@ fn components(thorough: bool) -> (Vec<&'static str>, Vec<(&'static str, Option<(
         ("/%25", Ok("%")),
         ("/prod+eu", Ok("prod+eu")),
         ("/a%2Bb", Ok("a+b")),
+        // names that begin or end with a slash or a blank: nothing is trimmed or normalised
+        ("/%2Fprod", Ok("/prod")),
+        ("/%2f%2f", Ok("//")),
+        ("/prod%2F", Ok("prod/")),
+        ("/%20v%20", Ok(" v ")),
         ("/v/extra", Err("ExtraUrlPathSegments")),
         ("/a/b/c", Err("ExtraUrlPathSegments")),
     ];
